@@ -121,6 +121,32 @@ claim("C04", "proof",
       "static analysis: partial evaluation + exact algebra (root isolation, Groebner reduction)",
       "DESIGN.md §5 C04")
 
+claim("C05", "other",
+      "The Newton driver is unrolled by the partial evaluator under every outcome tape (residual norm below tol / between "
+      "tol and 10 tol / large, stepper returns / raises, iteration caps 0..3): every return must carry a state whose own "
+      "measured residual norm is below the unmodified tolerance; a CFG dominance rule gives the same for any iteration "
+      "count; the engine's failure path must raise (to_results, which hard-codes converged=True, unreachable); the Armijo "
+      "search is unrolled over 250 outcome tapes against the reference acceptance/best-point/raise rule with symbolic trial "
+      "points (cap on/off); shooting configurations read from the services must be the zero/free sets of a reversing "
+      "symmetry; period = 2 x half-period; halo event-time term, residual/Jacobian assembly and central differences are term "
+      "identities against the extracted field.",
+      "Trusted: mirror theorem; kpe semantics; residual/stepper abstracted as outcome tapes. Not decided: closure within a "
+      "multiple of the tolerance under independent propagation; convergence of Newton.",
+      "static analysis: bounded unrolling by partial evaluation over outcome tapes + CFG dominance + term identities",
+      "DESIGN.md §5 C05")
+
+claim("C13", "other",
+      "(1) CFG path rules with constant-flag propagation on the predictor-corrector loop: after the out-of-target edge and "
+      "after the retry-limit edge no further predict is reachable (all histories). (2) The loop is unrolled by the partial "
+      "evaluator under every corrector outcome tape over {accept, reject, raise}^4 (6 thorough) x member/retry limits x two "
+      "parameter histories and compared with a reference transition system: family size, accepted/rejected/iteration "
+      "counts, predict origin, step threading, info lengths. Step clamp/shrink, natural and secant predictions, tangent "
+      "bookkeeping, member correction (tolerance, 2*half_period) and period hand-over are extracted as terms.",
+      "Trusted: the reference loop model written from the property statement; kpe semantics; corrector abstracted. Not "
+      "decided: that members lie on the intended family; numerical validity of members (C05's undecided part).",
+      "static analysis: CFG reachability with flag propagation + bounded unrolling by partial evaluation",
+      "DESIGN.md §5 C13")
+
 PENDING = ["C02", "C03", "C04", "C05", "C06", "C07", "C08", "C09", "C10", "C11", "C12", "C13", "C14", "C15",
            "C16", "C17", "C18", "C19", "C20"]
 
